@@ -245,3 +245,199 @@ def small_scope_cases():
 
 for _p in ("C09", "C10", "C11", "C12"):
     REGISTRY[_p] = DomFamily()
+
+
+# =====================================================================================
+# generic correspondence handler: harness subcommand + modelrun subcommand, line-exact comparison
+# =====================================================================================
+class SimpleCorr:
+    """Subclasses set: kind, gen_cmds(seed, tier) -> [argv tail lists for `<kind>-gen`],
+    impl_cmd, model_args, rule, assumptions; may override shrink_candidates / classify_known."""
+    kind = ""
+    model_args = []
+    rule = ""
+    assumptions = []
+    corpus = None
+
+    def gen_blocks(self, pid, d, tier, seed):
+        blocks = []
+        cdir = os.path.join(vlib.VERIF, "corpus", self.corpus or self.kind)
+        if os.path.isdir(cdir):
+            for f in sorted(os.listdir(cdir)):
+                blocks += vlib.read_blocks(os.path.join(cdir, f))
+        self.ncorpus = len(blocks)
+        gen = os.path.join(d, "gen.cases")
+        for tail in self.gen_cmds(seed, tier):
+            rc, o, _ = vlib.run([vlib.harness_bin(), self.kind + "-gen", "--out", gen] + tail, timeout=3000)
+            if rc != 0:
+                raise RuntimeError(self.kind + "-gen failed: " + o[-2000:])
+            blocks += vlib.read_blocks(gen)
+        return blocks
+
+    def run_cases(self, d, blocks, tag):
+        cases = os.path.join(d, tag + ".cases")
+        vlib.write_blocks(cases, blocks)
+        obs, orc, st, mo = [os.path.join(d, tag + x) for x in (".impl", ".oracle", ".stats", ".model")]
+        rc, o, _ = vlib.run([vlib.harness_bin(), self.kind + "-run", cases, obs, orc, st], timeout=3000)
+        if rc != 0:
+            raise RuntimeError("harness %s-run failed (rc=%d): %s" % (self.kind, rc, o[-2000:]))
+        rc, o, _ = vlib.run([vlib.MODELRUN, self.kind] + self.model_args + [cases, mo], timeout=3000)
+        if rc != 0:
+            raise RuntimeError("modelrun %s failed: %s" % (self.kind, o[-2000:]))
+        return (dict(vlib.read_blocks(obs)), dict(vlib.read_blocks(mo)), [l.rstrip("\n") for l in open(orc)], json.load(open(st)))
+
+    def canon(self, line):
+        return line
+
+    def disagreements(self, blocks, impl, model):
+        out = []
+        for cid, lines in blocks:
+            io, mo = impl.get(cid, []), model.get(cid, [])
+            for k in range(max(len(io), len(mo))):
+                a = io[k] if k < len(io) else "<missing>"
+                b = mo[k] if k < len(mo) else "<missing>"
+                if self.canon(a) != self.canon(b):
+                    out.append((cid, k, "observation %d: implementation `%s` vs model `%s`" % (k, a[:160], b[:160])))
+                    break
+        return out
+
+    def fails(self, pid, d, lines):
+        blocks = [("x", lines)]
+        try:
+            impl, model, orc, st = self.run_cases(d, blocks, "shrink")
+        except RuntimeError as e:
+            return [], []
+        return [l for l in orc if (" " + pid + " ") in (" " + l + " ")], self.disagreements(blocks, impl, model)
+
+    def shrink_candidates(self, lines):
+        for k in range(len(lines) - 1, -1, -1):
+            yield lines[:k] + lines[k + 1:]
+
+    def shrink(self, pid, d, lines, pred):
+        cur, budget, changed = list(lines), 150, True
+        while changed and budget > 0:
+            changed = False
+            for cand in self.shrink_candidates(cur):
+                if budget <= 0:
+                    break
+                budget -= 1
+                if cand and cand != cur and pred(cand):
+                    cur = cand; changed = True
+                    break
+        return cur
+
+    def known_key(self, pid, oracle_line, case_lines):
+        """key of the known-findings class this failure belongs to, or None"""
+        return None
+
+    def extra(self, pid, out, tier, seed, d):
+        """additional implementation-side sweeps; returns list of oracle lines"""
+        return []
+
+    def run(self, pid, out, tier, seed, broken):
+        d = workdir(pid)
+        blocks = self.gen_blocks(pid, d, tier, seed)
+        impl, model, orc, st = self.run_cases(d, blocks, "main")
+        bmap = dict(blocks)
+        mine = [l for l in orc if (" " + pid + " ") in (" " + l + " ")]
+        mine += ["- " + l for l in self.extra(pid, out, tier, seed, d)]
+        dis = self.disagreements(blocks, impl, model)
+        known = vlib.known_keys(pid)
+        unlisted, seen_known = [], {}
+        for l in mine:
+            cid = l.split(" ")[0]
+            key = self.known_key(pid, l, bmap.get(cid, []))
+            if key and key in known:
+                seen_known.setdefault(key, l)
+            else:
+                unlisted.append(l)
+        for key, l in seen_known.items():
+            out.known.append("key=%s %s (reproduced: %s)" % (key, known[key], l[:200]))
+        out.coverage.update({
+            "traces_validated_against_impl": len(blocks), "evaluations": len(blocks),
+            "distinct_nontrivial": st.get("distinct_nontrivial", 0), "rule": self.rule,
+            "samples": [{"case": blocks[k][0], "lines": blocks[k][1][:8]} for k in range(min(3, len(blocks)))],
+            "generator": st, "corpus_cases": self.ncorpus, "disagreements": len(dis), "oracle_failures": len(mine),
+            "known_findings_reproduced": sorted(seen_known),
+        })
+        out.assumptions += self.assumptions
+        if unlisted:
+            l = unlisted[0]
+            cid = l.split(" ")[0]
+            if cid in bmap:
+                small = self.shrink(pid, d, bmap[cid], lambda ls: bool(self.fails(pid, d, ls)[0]))
+                o2, _ = self.fails(pid, d, small)
+                rp = vlib.write_replay(pid, self.kind, "implementation oracle: " + (o2[0] if o2 else l), small)
+            else:
+                rp = vlib.write_replay(pid, self.kind + "-sweep", "implementation oracle: " + l, [l])
+            out.violation("the implementation violates %s: %s" % (pid, l), rp, True)
+        elif dis:
+            cid, k, text = dis[0]
+            small = self.shrink(pid, d, bmap[cid], lambda ls: bool(self.fails(pid, d, ls)[1]))
+            o2, d2 = self.fails(pid, d, small)
+            what = d2[0][2] if d2 else text
+            if o2:
+                rp = vlib.write_replay(pid, self.kind, "implementation oracle: " + o2[0], small)
+                out.violation(o2[0], rp, True)
+            else:
+                rp = vlib.write_replay(pid, self.kind, what, small, broken="correspondence %s (Coq model vs implementation)" % self.kind)
+                out.violation("correspondence broken, no property oracle fails on the shrunk case: " + what, rp, False)
+        elif broken:
+            rp = vlib.write_replay(pid, "proof", broken.split("\n")[0], broken.split("\n"), broken=broken.split("\n")[0])
+            out.violation(broken.split("\n")[0], rp, False)
+
+    def replay(self, pid, path):
+        meta, body = vlib.read_replay(path)
+        d = workdir(pid)
+        vlib.build_harness(); vlib.build_model()
+        if meta.get("kind") != self.kind:
+            log("replay names a broken obligation or sweep, not a case: " + meta.get("broken", meta.get("what", "")))
+            return 1
+        o, dis = self.fails(pid, d, [l for l in body if l.strip()])
+        for l in o:
+            log("oracle: " + l)
+        for c, k, t in dis:
+            log("disagreement: " + t)
+        return 1 if (o or dis) else 0
+
+
+# =====================================================================================
+# C18: SharedString intern table under scheduled real threads
+# =====================================================================================
+class Intern(SimpleCorr):
+    kind = "sched"
+    model_args = ["fixed"]
+    rule = ("thread programs of new/clone/drop over a 2-letter alphabet run on real threads under a controller that enforces the "
+            "schedule through the rbx_dom_verif yield hook (one grant = one atomic step: new, clone, last-release, clean-up); "
+            "exhaustive: every interleaving of small 2-thread program sets; random: 2-3 threads; after each step table size, every "
+            "handle's bytes and buffer identity classes are compared with the extracted Coq transition system; non-trivial = at least "
+            "two threads with non-empty programs; distinct by case text")
+    assumptions = ["atomicity of SharedString::new's critical section and of Arc::into_inner (hardware/Rust memory model below the step granularity is not modelled)",
+                   "blake3 is injective on the contents used (hash identified with content id in the model)"]
+
+    def gen_cmds(self, seed, tier):
+        if tier == "quick":
+            return [["--seed", str(seed), "--cases", "12", "--exhaustive", "--threads", "2", "--limit", "400"],
+                    ["--seed", str(seed), "--cases", "1500", "--max-ops", "4"]]
+        return [["--seed", str(seed), "--cases", "60", "--exhaustive", "--threads", "2", "--limit", "3000"],
+                ["--seed", str(seed), "--cases", "6", "--exhaustive", "--threads", "3", "--limit", "20000"],
+                ["--seed", str(seed), "--cases", "30000", "--max-ops", "6"]]
+
+    def shrink_candidates(self, lines):
+        # drop schedule entries one at a time
+        for i, l in enumerate(lines):
+            if l.startswith("sched "):
+                ent = l.split()[1:]
+                for k in range(len(ent) - 1, -1, -1):
+                    yield lines[:i] + ["sched " + " ".join(ent[:k] + ent[k + 1:])] + lines[i + 1:]
+
+    def extra(self, pid, out, tier, seed, d):
+        ops = "100000" if tier == "quick" else "3000000"
+        rc, o, _ = vlib.run([vlib.harness_bin(), "sched-soak", "--seed", str(seed), "--threads", "16", "--ops", ops], timeout=3000)
+        out.coverage["soak"] = o.strip().split("\n")[-1]
+        if rc != 0:
+            return ["C18 soak: harness crashed: " + o[-300:]]
+        return [l for l in o.split("\n") if l.startswith("C18 ")]
+
+
+REGISTRY["C18"] = Intern()
